@@ -8,7 +8,16 @@ Line protocol for C14 (memoised stream properties).
 namespace Driver.C14
 open ThermoVerif.PropCache Driver
 
-def step (w : World) (line : String) : World × String :=
+/-- position of `d` in `seen` (memo dicts in order of first appearance on a read line), extending `seen` if new -/
+def dictNo (seen : List Nat) (d : Nat) : List Nat × Nat :=
+  match seen.idxOf? d with
+  | some i => (seen, i)
+  | none => (seen ++ [d], seen.length)
+
+/-- the model world and the memo dicts seen on read lines so far -/
+abbrev St := World × List Nat
+
+def stepW (w : World) (line : String) : World × String :=
   match splitWs line with
   | ["new", p] =>
     match p.toNat? with
@@ -48,6 +57,18 @@ def step (w : World) (line : String) : World × String :=
   | ["readempty", _] => (w, "none")
   | _ => (w, "bad-op")
 
-def main : IO Unit := Driver.loop World.init step
+/-- read lines also report which memo dict object was consulted (numbered by first appearance), so that a
+memo shared between two objects, or one that was not replaced by a reset, shows as a disagreement at once -/
+def step (st : St) (line : String) : St × String :=
+  let (w, seen) := st
+  match splitWs line with
+  | ["read", o, _, _] =>
+    let (w', ans) := stepW w line
+    match o.toNat? >>= w'.obj? with
+    | some x => let (seen', i) := dictNo seen x.dict; ((w', seen'), ans ++ s!" d{i}")
+    | none => ((w', seen), ans)
+  | _ => let (w', ans) := stepW w line; ((w', seen), ans)
+
+def main : IO Unit := Driver.loop ((World.init, []) : St) step
 
 end Driver.C14
